@@ -104,7 +104,7 @@ def build_jobs(run, recl_default):
         job("twice", tw)
     # (ii) after unrelated fits / predicts of other families, shuffled; also with 8 threads
     for j in range(run.n(2, 6)):
-        ops = list(T) + ([CT[0]] if j == 0 else [])
+        ops = list(T)
         rng.shuffle(ops)
         ops = ops[: run.n(9, len(ops))] if j else ops
         out = []
@@ -153,11 +153,12 @@ def build_jobs(run, recl_default):
         imports="opendsm-first")
     # cold numba cache
     job("cold-jit", [fit("daily", dsd[1]), fit("billing", dsb[1])], cold=True)
-    # CalTRACK hourly: fresh with 1 and with 8 threads, and (above) inside the first shuffled history
+    # CalTRACK hourly: fresh with 1 and with 8 threads, and after fits of other families
     # (quick: 2 threads instead of 8 -- a LAPACK-heavy fit with 8 spinning BLAS threads on a shared machine takes minutes)
     for ct in CT:
         job("caltrack-fresh", [ct], threads=1)
         job("caltrack-threads", [ct], threads=run.n(2, 8))
+    job("caltrack-after-others", [fit("daily", dsd[0]), fit("hourly", dsh[0], "default", sd), CT[0]], threads=1)
     if thorough:
         job("caltrack-twice", [CT[0], fit("daily", dsd[0]), CT[0]], threads=1)
     return jobs, draws
